@@ -1159,7 +1159,11 @@ func EvalExpression(exprSrc string, rootValue interface{}, stdout io.Writer) (*C
 	ev.root = rootCell
 	ev.ruleRoot = rootCell
 	cell, err := ev.evalExpr(expr)
-	if err != nil && err != errExit {
+	if err == errNext {
+		return nil, ev.error(expr.Token(), "next used outside of a rule")
+	}
+	if err != nil {
+		// this includes errExit, which EvalProgram turns into a successful exit
 		return nil, err
 	}
 	if cell != nil {
@@ -1223,6 +1227,9 @@ func EvalProgram(progSrc string, files []InputFile, rootSelectors []string, stdo
 			if len(rootSelectors) > 0 {
 				for _, rootSelector := range rootSelectors {
 					cell, err := EvalExpression(rootSelector, rootValue, stdout)
+					if err == errExit {
+						return &ev, nil
+					}
 					if err != nil {
 						return &ev, err
 					}
